@@ -111,10 +111,10 @@ DoParse == /\ phase = "factors"
 
 SpecOf(P, unit) == (IF P = -1 THEN <<>> ELSE <<".">> \o Digits(P)) \o unit
 \* own = TRUE: format with the string's own unit (the round trip); otherwise (single-factor strings) with another unit string
-DoFormat == \E own \in BOOLEAN, P \in (IF Len(facs) = 1 THEN Precs ELSE Precs2), ou \in OtherUnits :
+DoFormat == \E own \in BOOLEAN : \E P \in (IF own /\ Len(facs) = 1 THEN Precs ELSE Precs2) : \E ou \in OtherUnits :
            /\ phase = "parsed" /\ facs # <<>>
            /\ (own => ou = CHOOSE x \in OtherUnits : TRUE)         \* (one successor for own = TRUE)
-           /\ (~own => Len(facs) = 1 /\ P \in Precs2)
+           /\ (~own => Len(facs) = 1)
            /\ LET unit == IF own THEN FsChars(facs) ELSE ou
                   spec == SpecOf(P, unit)
                   r == FormatQ(units, cur, spec)
